@@ -907,7 +907,11 @@ impl<'a> CompilerState<'a> {
                 let mut px = pair.into_inner();
                 let mut s = self.compile_quoted_string(px.next().unwrap())?;
                 let size = if let Some(x) = px.next() {
-                    Some(self.parse_calc(x.into_inner())? as u32)
+                    let n = self.parse_calc(x.into_inner())?;
+                    if !(0..=0xffff).contains(&n) {
+                        return Err(self.syntax_error("Invalid size of inline assembly", pos));
+                    }
+                    Some(n as u32)
                 } else {
                     None
                 };
